@@ -592,6 +592,8 @@ fn check_c05(pre: &EState, op: &EOp, post: &EState) -> Vec<String> {
         EOp::Clear => {
             syms.clear();
             cursor = 0;
+            // since the F25 fix (C17) `clear` also drops the saved cursors
+            stack.clear();
         }
         EOp::RemoveFront(n) => {
             syms.drain(0..*n);
